@@ -2,6 +2,7 @@
 // A small state space closed completely: every node kind that has a derived operation, in the states empty /
 // singleton / several members (handlers: 0,1,2), and ALL pairs of values from pools of logograms, linkages, calling
 // conventions, transfers, basic specifiers and basic qualifiers for the equalities.
+#include <algorithm>
 #include <string>
 #include <vector>
 
@@ -62,6 +63,31 @@ namespace {
          chk(e == s.position(n - 1), "sequence:pre-decrement:" + impl, "--end() is not the last position");
          chk(s.begin() != s.end(), "sequence:inequality:" + impl, "begin() != end() is false on a non-empty sequence");
       }
+      // every sequence of <= 5 iterator operations {*it, ++it, it++, --it, it--} from every start position 0..min(n,3),
+      // against a plain index: the iterator always equals position(index) and dereferences to the element at that index
+      const std::size_t starts = std::min<std::size_t>(n, 3);
+      for (std::size_t start = 0; start <= starts; ++start)
+         for (int len = 1; len <= 5; ++len) {
+            int total = 1;
+            for (int i = 0; i < len; ++i) total *= 5;
+            for (int code = 0; code < total; ++code) {
+               auto it = s.position(start);
+               std::size_t idx = start;
+               bool ok = true, admissible = true;
+               int c = code;
+               for (int i = 0; i < len and ok and admissible; ++i, c /= 5) {
+                  switch (c % 5) {
+                  case 0: if (idx < n) ok = &*it == &*s.position(idx) and it.operator->() == &*s.position(idx); break;
+                  case 1: if (idx + 1 > n) admissible = false; else { auto& r = ++it; ++idx; ok = r == s.position(idx); } break;
+                  case 2: if (idx + 1 > n) admissible = false; else { auto old = it++; ok = old == s.position(idx); ++idx; } break;
+                  case 3: if (idx == 0) admissible = false; else { auto& r = --it; --idx; ok = r == s.position(idx); } break;
+                  case 4: if (idx == 0) admissible = false; else { auto old = it--; ok = old == s.position(idx); --idx; } break;
+                  }
+                  if (ok and admissible) ok = it == s.position(idx) and (idx >= n or &*it == &*s.position(idx));
+               }
+               if (not ok) { chk(false, "sequence:iterator-walk:" + impl, "after a sequence of iterator operations (code " + std::to_string(code) + " of length " + std::to_string(len) + " from position " + std::to_string(start) + ") the iterator does not designate the element at its position"); return; }
+            }
+         }
    }
 
    template<class P>
